@@ -23,7 +23,7 @@ from sim.world import Outcome, Session, compare, reference_world
 
 PROPERTY = "C05"
 
-SESSIONS = {"quick": 120, "thorough": 3000}
+SESSIONS = {"quick": 120, "thorough": 500}
 BUDGET_S = {"quick": 80, "thorough": 1500}
 CAP_S = {"quick": 240, "thorough": 480}
 RULE = ("one session = one generated recipe (3-8 ops over 1-3 small tables) x E drawn schedules of the simulated cluster "
